@@ -168,6 +168,19 @@ def standin_results_roundtrip(tier, seed):
                 fails.append(dict(args=dict(repetitions=reps, instances=instances), failed="results-raised", clause=f"{ex!r}"))
                 continue
             cases += 1
+            # the message itself, decoded by hand: every per-qubit entry holds the bits of THAT qubit (bit i of byte i // 8, least significant first)
+            try:
+                mr = proto.sweep_results[0].parameterized_results[0].measurement_results[0]
+                for qmr in mr.qubit_measurement_results:
+                    qb = v2.qubit_from_proto_id(qmr.qubit.id)
+                    col = recs[:, :, order.index(qb)].reshape(-1)
+                    got_bits = [(qmr.results[i // 8] >> (i % 8)) & 1 for i in range(reps * instances)]
+                    if got_bits != col.astype(int).tolist():
+                        fails.append(dict(args=dict(repetitions=reps, instances=instances, order=repr(order), qubit=repr(qb)), failed="results-packed-bits",
+                                          clause=f"the packed bits stored for {qb!r} are not that qubit's measurement results"))
+                        break
+            except (IndexError, AttributeError) as ex:
+                fails.append(dict(args=dict(repetitions=reps, instances=instances), failed="results-message-shape", clause=f"unexpected message structure: {ex!r}"))
             if not np.array_equal(back.records["k"], recs) or back.params != r.params:
                 fails.append(dict(args=dict(repetitions=reps, instances=instances, order=repr(order)), failed="results-roundtrip",
                                   clause="results_from_proto(results_to_proto(r)) != r"))
